@@ -46,6 +46,10 @@ from odxtools.determinenumberofitems import DetermineNumberOfItems
 from odxtools.endofpdufield import EndOfPduField
 from odxtools.dynamicendmarkerfield import DynamicEndmarkerField
 from odxtools.dynenddopref import DynEndDopRef
+from odxtools.multiplexer import Multiplexer
+from odxtools.multiplexercase import MultiplexerCase
+from odxtools.multiplexerdefaultcase import MultiplexerDefaultCase
+from odxtools.multiplexerswitchkey import MultiplexerSwitchKey
 
 FRAGS = [OdxDocFragment("Verif", DocType.CONTAINER)]
 
@@ -236,6 +240,29 @@ class Builder:
             return self.dop(s)
         if k == "structure":
             return self.structure(s)
+        if k == "mux":
+            kd = self.dop(s["key_dop"])
+            cases = []
+            for c in s["cases"]:
+                st = self.structure(c["structure"]) if c.get("structure") else None
+                cases.append(mk(MultiplexerCase, short_name=c["name"],
+                                structure_ref=None if st is None else OdxLinkRef.from_id(st.odx_id),
+                                structure_snref=None,
+                                lower_limit=_limit(c["lo"], None), upper_limit=_limit(c["hi"], None)))
+            dc = None
+            if s.get("default"):
+                st = self.structure(s["default"]["structure"]) if s["default"].get("structure") else None
+                dc = mk(MultiplexerDefaultCase, short_name=s["default"]["name"],
+                        structure_ref=None if st is None else OdxLinkRef.from_id(st.odx_id),
+                        structure_snref=None)
+            m = mk(Multiplexer, odx_id=oid(self.fresh("mux")), short_name=s.get("name") or
+                   self.fresh("mux"), byte_position=s["bytepos"],
+                   switch_key=MultiplexerSwitchKey(byte_position=s.get("key_bytepos", 0),
+                                                   bit_position=s.get("key_bitpos"),
+                                                   dop_ref=OdxLinkRef.from_id(kd.odx_id)),
+                   default_case=dc, cases=NamedItemList(cases), is_visible_raw=None)
+            self.objs.append(m)
+            return m
         if k in ("staticfield", "dynlenfield", "eopfield", "endmarkerfield"):
             st = self.structure(s["structure"])
             common = dict(odx_id=oid(self.fresh(k)), short_name=s.get("name", self.fresh(k)),
@@ -290,8 +317,17 @@ class Builder:
             db.update(o._build_odxlinks())
         for o in self.objs:
             o._resolve_odxlinks(db)
+        import types
+        from odxtools.basicstructure import BasicStructure
+        from odxtools.dopbase import DopBase
+        ddds = types.SimpleNamespace(
+            structures=NamedItemList([o for o in self.objs if isinstance(o, BasicStructure)]),
+            env_data_descs=NamedItemList(),
+            all_data_object_properties=NamedItemList([o for o in self.objs
+                                                      if isinstance(o, DopBase)]))
+        layer = types.SimpleNamespace(diag_data_dictionary_spec=ddds)
         for o in self.objs:
-            o._resolve_snrefs(SnRefContext())
+            o._resolve_snrefs(SnRefContext(diag_layer=layer))
         return db
 
 
